@@ -40,7 +40,7 @@ def full_model(name, contracts, space, grid, events, targets, lats=(0,), delays=
         "Mult": {c: cs[c]["mult"] for c in contracts},
         "CashReq": {c: cs[c]["cashreq"] for c in contracts},
         "Mr": {c: cs[c]["mr"] for c in contracts},
-        "Fixed": fixed, "Prop": prop, "Deposit": deposit, "Rate": rate, "Markup": markup,
+        "Fixed": fixed, "Prop": prop, "Deposit": deposit, "Rate": rate, "Markup": markup, "Epsilon": F(0),
         "Grid": list(grid), "Events": list(events), "Lats": set(lats), "Delays": set(delays),
         "Targets": tlagen.Raw("{" + ", ".join(tlagen.tla(dict(t)) for t in targets) + "}"),
         "ChainSeq": list(chain), "ChainLtd": list(chain_ltd), "ChainExp": list(chain_exp), "Thr": thr,
@@ -77,7 +77,7 @@ def replay_chunk(ctx, texts):
             continue
         cfg = s["cfg"]
         kind = kinds[(len(hist) + cfg["lat"] + cfg["delay"] + out["n"]) % len(kinds)]
-        fails, n = replay_envfull.run_case(ctx["model"], cfg, hist, kind)
+        fails, n = replay_envfull.run_case(ctx["model"], cfg, hist, kind, owned=ctx.get("owned"))
         out["n"] += 1
         out["ops"] += n
         k = "lat%s/d%s/%s" % (cfg["lat"], cfg["delay"], "".join(r["out"][0] for r in hist))
@@ -88,7 +88,8 @@ def replay_chunk(ctx, texts):
         for f in fails:
             i, clause, detail = f[0], f[1], f[2]
             extra = f[3] if len(f) > 3 else ""
-            if len(out["fails"]) < 40:
+            own = ctx.get("owned") is None or clause in ctx["owned"]
+            if (own and sum(1 for x in out["fails"] if x["clause"] == clause) < 15) or (not own and len(out["fails"]) < 10):
                 key = "%s/%s" % (clause, extra) if extra else "%s/lat%s/d%s" % (clause, "0" if cfg["lat"] == 0 else "N", cfg["delay"])
                 out["fails"].append({"clause": clause, "key": key, "detail": detail,
                                      "case": {"kind": "envfull", "model_name": ctx["name"], "model": ctx["model"],
@@ -99,8 +100,10 @@ def replay_chunk(ctx, texts):
 
 def run_models(rep, models, clauses):
     for m in models:
+        ctx = dict(m["ctx"])
+        ctx["owned"] = set(clauses)
         explore.explore_and_replay(rep, m["name"], m["module"], m["cfg"], ("harness.envfull_check", "replay_chunk"),
-                                   m["ctx"], clauses, m["invariants"], m["properties"], chunk=100, workers=4)
+                                   ctx, clauses, m["invariants"], m["properties"], chunk=100, workers=4)
 
 
 def clauses_of(prop):
